@@ -690,3 +690,291 @@ func closureBinding(fv *ssa.FreeVar) ssa.Value {
 	})
 	return out
 }
+
+// ---------------------------------------------------------------------------
+// C04.bitexact: the WKB writer stores the ordinate it was given, bit for bit
+// ---------------------------------------------------------------------------
+
+func init() {
+	register(&Rule{
+		ID:    "C04.bitexact",
+		Props: []string{"C04"},
+		Doc:   "WKB is a bit-lossless encoding of every float64 (NaN payloads and signed zeros included): in the methods of wkbMarshaler the value handed to math.Float64bits is the method's own parameter (or a field / element read of it) with no arithmetic, selection or call in between — a writer that first 'normalises' the ordinate (canonical NaN, +0 for -0, rounding) emits bits the geometry does not hold, and UnmarshalWKB(AsBinary(g)) is no longer g",
+		Floor: 1,
+		Run:   runC04BitExact,
+	})
+}
+
+func runC04BitExact(c *Ctx) {
+	n := 0
+	for _, f := range c.P.Funcs {
+		if pkgOf(f) != "geom" || !strings.Contains(FuncName(rootFunc(f)), "(*wkbMarshaler)") {
+			continue
+		}
+		eachCall(f, func(ci ssa.CallInstruction) {
+			if calleeName(ci) != "math.Float64bits" {
+				return
+			}
+			n++
+			v := ci.Common().Args[0]
+			var last ssa.Value = v
+			var pure func(v ssa.Value, d int) bool
+			pure = func(v ssa.Value, d int) bool {
+				if d > 10 {
+					return false
+				}
+				v = resolveCell(v)
+				last = v
+				switch x := v.(type) {
+				case *ssa.Parameter:
+					return true
+				case *ssa.Field:
+					return pure(x.X, d+1)
+				case *ssa.FieldAddr:
+					return pure(x.X, d+1)
+				case *ssa.IndexAddr:
+					return pure(x.X, d+1)
+				case *ssa.Index:
+					return pure(x.X, d+1)
+				case *ssa.Slice:
+					return pure(x.X, d+1)
+				case *ssa.UnOp:
+					if x.Op == token.MUL {
+						return pure(x.X, d+1)
+					}
+				case *ssa.Alloc:
+					// a local array or struct the ordinates are gathered in: everything stored into it is pure
+					stores := 0
+					ok := true
+					var visit func(addr ssa.Value, dd int)
+					visit = func(addr ssa.Value, dd int) {
+						if dd > 3 || addr.Referrers() == nil {
+							return
+						}
+						for _, r := range *addr.Referrers() {
+							switch y := r.(type) {
+							case *ssa.Store:
+								if y.Addr == addr {
+									stores++
+									if !pure(y.Val, d+1) {
+										ok = false
+									}
+								}
+							case *ssa.IndexAddr:
+								visit(y, dd+1)
+							case *ssa.FieldAddr:
+								visit(y, dd+1)
+							}
+						}
+					}
+					visit(x, 0)
+					last = x
+					return ok && stores > 0
+				}
+				return false
+			}
+			isParam := pure(v, 0)
+			v = last
+			c.Check(isParam, ci.Pos(), FuncName(f), "argument of math.Float64bits", "the parameter itself (or a field/element of it), unmodified", fmt.Sprintf("the value whose bits are written is %s, not the ordinate the method was given: some float64 values (NaN payloads, -0, …) are no longer written bit for bit", fmt.Sprintf("%T %s", v, v.String())))
+		})
+	}
+	c.Triv(token.NoPos, "-", "summary", fmt.Sprintf("%d math.Float64bits calls in wkbMarshaler methods", n))
+}
+
+// ---------------------------------------------------------------------------
+// C10.sortkey: lists of extracted parts are ordered by their whole content
+// ---------------------------------------------------------------------------
+
+func init() {
+	register(&Rule{
+		ID:    "C10.sortkey",
+		Props: []string{"C10", "C01"},
+		Doc:   "the lists of parts an overlay result is assembled from (polygons, inner rings, line strings — all filled in map-iteration order) are put in canonical order by a TOTAL order on their content: every sort.Slice / sort.SliceStable in geom over a slice of LineString or Polygon decides by Sequence.less on the elements' whole coordinate sequences. A comparison function that looks only at one point of each element (its start point, say) leaves elements that share that point tied, and sort.Slice keeps ties in arrival order — the order Go's randomised map iteration produced, so identical calls return differently ordered results",
+		Floor: 1,
+		Run:   runC10SortKey,
+	})
+}
+
+func runC10SortKey(c *Ctx) {
+	n := 0
+	for _, f := range c.P.Funcs {
+		if pkgOf(f) != "geom" || strings.Contains(c.P.File(f.Pos()), "dcel_debug.go") {
+			continue
+		}
+		eachCall(f, func(ci ssa.CallInstruction) {
+			name := calleeName(ci)
+			if name != "sort.Slice" && name != "sort.SliceStable" {
+				return
+			}
+			args := ci.Common().Args
+			if len(args) != 2 {
+				return
+			}
+			sorted := args[0]
+			if mi, ok := sorted.(*ssa.MakeInterface); ok {
+				sorted = mi.X
+			}
+			sl, ok := sorted.Type().Underlying().(*types.Slice)
+			if !ok {
+				return
+			}
+			en := namedName(sl.Elem())
+			if en != "LineString" && en != "Polygon" {
+				return
+			}
+			less := closureOf(args[1])
+			if less == nil {
+				return
+			}
+			n++
+			whole := false
+			seen := map[*ssa.Function]bool{}
+			var scan func(g *ssa.Function, d int)
+			scan = func(g *ssa.Function, d int) {
+				if g == nil || seen[g] || d > 3 {
+					return
+				}
+				seen[g] = true
+				eachCall(g, func(cc ssa.CallInstruction) {
+					if calleeName(cc) == "geom.(Sequence).less" {
+						whole = true
+						return
+					}
+					if sc := cc.Common().StaticCallee(); sc != nil && isNewHelper(rootFunc(sc)) {
+						scan(sc, d+1)
+					}
+				})
+				for _, an := range g.AnonFuncs {
+					scan(an, d+1)
+				}
+			}
+			scan(less, 0)
+			c.Check(whole, ci.Pos(), FuncName(f), fmt.Sprintf("%s over []%s", name, en), "ordered by Sequence.less on the whole coordinate sequence", "the comparison function never compares the elements' whole coordinate sequences (no call of Sequence.less): elements that agree on the part it does look at are tied and keep their arrival order, which for these lists is map-iteration order — the result is no longer a deterministic function of the inputs")
+		})
+	}
+	if n < 3 {
+		c.Errorf("only %d sorts of part lists found, expected >= 3", n)
+	}
+}
+
+// ---------------------------------------------------------------------------
+// C17.chord: Douglas-Peucker measures against a chord that may be a point
+// ---------------------------------------------------------------------------
+
+func init() {
+	register(&Rule{
+		ID:    "C17.chord",
+		Props: []string{"C17"},
+		Doc:   "the chord a vertex is measured against in Simplify can have zero length (a closed sequence's first chord; a later chord whenever a retained vertex has the XY of the final point): in the simplification routines (alg_simplify.go and helpers split off them) every division by a vector's Length() — and every Unit() — is executed only after a test that the chord's two end points differ (an ==/!= between XY values, or the length against 0) in a dominating block. Without it the distance of every vertex is NaN, `d > maxDist` is never true and vertices farther than the threshold are dropped",
+		Floor: 1,
+		Run:   runC17Chord,
+	})
+}
+
+// samePointRead: the same value, or two reads Sequence.GetXY(i) of the same sequence at the same index.
+func samePointRead(a, b ssa.Value) bool {
+	if sameValue(a, b) {
+		return true
+	}
+	x, ok1 := a.(*ssa.Call)
+	y, ok2 := b.(*ssa.Call)
+	if !ok1 || !ok2 || calleeName(x) != "geom.(Sequence).GetXY" || calleeName(y) != calleeName(x) || len(x.Call.Args) != len(y.Call.Args) {
+		return false
+	}
+	for i := range x.Call.Args {
+		if !sameValue(x.Call.Args[i], y.Call.Args[i]) {
+			return false
+		}
+	}
+	return true
+}
+
+func runC17Chord(c *Ctx) {
+	n := 0
+	for _, f := range c.P.Funcs {
+		if pkgOf(f) != "geom" || f.Blocks == nil {
+			continue
+		}
+		if !strings.HasSuffix(c.P.File(rootFunc(f).Pos()), "alg_simplify.go") {
+			continue
+		}
+		isLen := func(v ssa.Value) bool {
+			call, ok := v.(*ssa.Call)
+			return ok && calleeName(call) == "geom.(XY).Length"
+		}
+		var guardedIn func(g *ssa.Function, at *ssa.BasicBlock, d int, site ssa.CallInstruction) bool
+		guarded := func(at *ssa.BasicBlock) bool { return guardedIn(f, at, 0, nil) }
+		guardedIn = func(g *ssa.Function, at *ssa.BasicBlock, d int, site ssa.CallInstruction) bool {
+			matchesArgs := func(bo *ssa.BinOp) bool {
+				if site == nil {
+					return true
+				}
+				// in a caller the test must be about the very points handed to the helper
+				args := site.Common().Args
+				for i := range args {
+					for j := range args {
+						if i != j && samePointRead(bo.X, args[i]) && samePointRead(bo.Y, args[j]) {
+							return true
+						}
+					}
+				}
+				return false
+			}
+			if d == 0 {
+				// the test may sit in the callers of an unexported helper: then in every one of them
+				if sites := c.P.callSitesOf(g); d < 2 && g.Parent() == nil && len(sites) > 0 && !token.IsExported(g.Name()) {
+					all := true
+					for _, cs := range sites {
+						if !guardedIn(cs.Parent(), cs.Block(), d+1, cs) {
+							all = false
+						}
+					}
+					if all {
+						return true
+					}
+				}
+			}
+			for _, b := range g.Blocks {
+				if b == at || !b.Dominates(at) {
+					continue
+				}
+				for _, in := range b.Instrs {
+					bo, ok := in.(*ssa.BinOp)
+					if !ok {
+						continue
+					}
+					switch bo.Op {
+					case token.EQL, token.NEQ:
+						if namedName(bo.X.Type()) == "XY" && matchesArgs(bo) || site == nil && (computedFrom(bo.X, isLen) || computedFrom(bo.Y, isLen)) {
+							return true
+						}
+					case token.GTR, token.LSS, token.LEQ, token.GEQ:
+						if site == nil && (computedFrom(bo.X, isLen) || computedFrom(bo.Y, isLen)) {
+							return true
+						}
+					}
+				}
+			}
+			return false
+		}
+		eachInstr(f, func(in ssa.Instruction) {
+			switch x := in.(type) {
+			case *ssa.BinOp:
+				if x.Op != token.QUO || !computedFrom(x.Y, isLen) {
+					return
+				}
+				n++
+				c.Check(guarded(x.Block()), x.Pos(), FuncName(f), "division by a chord's length", "reached only after the chord's end points were tested for equality", "the chord's length divides without a preceding test that its end points differ: for a zero-length chord (retained vertex at the XY of the final point) every distance is NaN and vertices beyond the threshold are dropped")
+			case *ssa.Call:
+				if calleeName(x) != "geom.(XY).Unit" {
+					return
+				}
+				n++
+				c.Check(guarded(x.Block()), x.Pos(), FuncName(f), "Unit() of a chord", "reached only after the chord's end points were tested for equality", "Unit() of the chord is taken without a preceding test that its end points differ: for a zero-length chord every distance is NaN and vertices beyond the threshold are dropped")
+			}
+		})
+	}
+	if n < 1 {
+		c.Errorf("no division by a chord length found in alg_simplify.go, expected >= 1")
+	}
+}
